@@ -92,14 +92,44 @@ theorem checkFhArg_shift (k : Int) (a : FhArg) :
       · simp [hl, pure, Except.pure, shiftFH]
     · simp [hnd, Except.map, bind, Except.bind, ofFhErr]
 
-theorem setFh_shift (k : Int) (s : FState) (fo : Option FH.FH) :
-    setFh .optional (shiftState k s) (fo.map (shiftFH k)) =
-      (setFh .optional s fo).map (Option.map (shiftFH k)) := by
-  cases fo with
-  | none =>
-    obtain ⟨fitted, y, cutoff, fh, wlen⟩ := s
-    cases fh <;> cases fitted <;> simp [setFh, shiftState, Except.map]
-  | some f => simp [setFh, Except.map]
+theorem shiftFH_key_eq (k : Int) (g f : FH.FH) :
+    (((shiftFH k g).vals, (shiftFH k g).rel) == ((shiftFH k f).vals, (shiftFH k f).rel)) =
+      ((g.vals, g.rel) == (f.vals, f.rel)) := by
+  obtain ⟨gv, gr⟩ := g
+  obtain ⟨fv, fr⟩ := f
+  cases gr <;> cases fr <;> simp [shiftFH]
+  · constructor
+    · intro h
+      exact List.map_injective_iff.mpr (by intro a b hab; simpa using hab) h
+    · intro h; rw [h]
+
+theorem setFh_shift (mode : FhMode) (k : Int) (s : FState) (fo : Option FH.FH) :
+    setFh mode (shiftState k s) (fo.map (shiftFH k)) =
+      (setFh mode s fo).map (Option.map (shiftFH k)) := by
+  obtain ⟨fitted, y, cutoff, fh, wlen⟩ := s
+  cases mode with
+  | optional =>
+    cases fo with
+    | none => cases fh <;> cases fitted <;> simp [setFh, shiftState, Except.map]
+    | some f => simp [setFh, Except.map]
+  | required =>
+    cases fo with
+    | none => cases fitted <;> simp [setFh, shiftState, Except.map]
+    | some f =>
+      cases fitted with
+      | false => simp [setFh, shiftState, Except.map]
+      | true =>
+        simp only [setFh, shiftState, Option.map_some, ↓reduceIte, Option.map_map]
+        cases fh with
+        | none => simp [Except.map]
+        | some g =>
+          simp only [Option.map_some, Function.comp]
+          have := shiftFH_key_eq k g f
+          have e : (some ((shiftFH k g).vals, (shiftFH k g).rel) == some ((shiftFH k f).vals, (shiftFH k f).rel)) =
+              (some (g.vals, g.rel) == some (f.vals, f.rel)) := by
+            simpa using this
+          rw [e]
+          split <;> simp [Except.map]
 
 theorem insertObs_shift (k : Int) (acc : Series) (l : Int) (v : ORat) :
     Series.insertObs (Series.shift k acc) (l + k) v = Series.shift k (Series.insertObs acc l v) := by
@@ -278,9 +308,9 @@ open SkVerif SkVerif.Fc
 
 def shiftPair (k : Int) (r : FState × Out) : FState × Out := (shiftState k r.1, shiftOut k r.2)
 
-theorem fitWith_shift (core : Core) (k : Int) (s : FState) (y : Series) (fh : Option FH.FH) :
-    fitWith core .optional (shiftState k s) (Series.shift k y) (fh.map (shiftFH k)) =
-      shiftPair k (fitWith core .optional s y fh) := by
+theorem fitWith_shift (core : Core) (mode : FhMode) (k : Int) (s : FState) (y : Series) (fh : Option FH.FH) :
+    fitWith core mode (shiftState k s) (Series.shift k y) (fh.map (shiftFH k)) =
+      shiftPair k (fitWith core mode s y fh) := by
   unfold fitWith
   rw [shift_getLast]
   cases hl : y.getLast? with
@@ -290,8 +320,8 @@ theorem fitWith_shift (core : Core) (k : Int) (s : FState) (y : Series) (fh : Op
     have hst : ({ shiftState k s with y := Series.shift k y, cutoff := some (o.1 + k) } : FState) =
         shiftState k { s with y := y, cutoff := some o.1 } := by
       simp [shiftState]
-    rw [hst, setFh_shift]
-    cases hs : setFh .optional { s with y := y, cutoff := some o.1 } fh with
+    rw [hst, setFh_shift mode]
+    cases hs : setFh mode { s with y := y, cutoff := some o.1 } fh with
     | error e => simp [shiftPair, shiftOut]
     | ok fh' =>
       simp only [emap_ok]
@@ -303,12 +333,12 @@ theorem fitWith_shift (core : Core) (k : Int) (s : FState) (y : Series) (fh : Op
         · simp [hgt, shiftPair, shiftOut, shiftState]
         · simp [hgt, shiftPair, shiftOut, shiftState]
 
-theorem fit_shift (core : Core) (k : Int) (s : FState) (y : Series) (fh : Option FhArg) :
-    fit core .optional (shiftState k s) (Series.shift k y) (fh.map (shiftFhArg k)) =
-      shiftPair k (fit core .optional s y fh) := by
+theorem fit_shift (core : Core) (mode : FhMode) (k : Int) (s : FState) (y : Series) (fh : Option FhArg) :
+    fit core mode (shiftState k s) (Series.shift k y) (fh.map (shiftFhArg k)) =
+      shiftPair k (fit core mode s y fh) := by
   unfold fit
   cases fh with
-  | none => simpa using fitWith_shift core k s y none
+  | none => simpa using fitWith_shift core mode k s y none
   | some a =>
     simp only [Option.map_some, shift_getLast]
     cases hl : y.getLast? with
@@ -319,7 +349,7 @@ theorem fit_shift (core : Core) (k : Int) (s : FState) (y : Series) (fh : Option
       | error e => simp [shiftPair, shiftOut, shiftState]
       | ok f =>
         simp only [emap_ok]
-        simpa using fitWith_shift core k s y (some f)
+        simpa using fitWith_shift core mode k s y (some f)
 
 theorem outOf_shift (k : Int) (r : Except Err Series) :
     outOf (r.map (Series.shift k)) = shiftOut k (outOf r) := by
@@ -347,9 +377,9 @@ theorem predictStored_shift (core : Core) (k : Int) (s : FState) :
       rw [predictAt_shift, outOf_shift]
       simp [shiftPair]
 
-theorem predict_shift (core : Core) (k : Int) (s : FState) (fh : Option FhArg) :
-    predict core .optional (shiftState k s) (fh.map (shiftFhArg k)) =
-      shiftPair k (predict core .optional s fh) := by
+theorem predict_shift (core : Core) (mode : FhMode) (k : Int) (s : FState) (fh : Option FhArg) :
+    predict core mode (shiftState k s) (fh.map (shiftFhArg k)) =
+      shiftPair k (predict core mode s fh) := by
   obtain ⟨fitted, y0, cutoff, fh0, wlen⟩ := s
   unfold predict
   cases fitted with
@@ -359,16 +389,16 @@ theorem predict_shift (core : Core) (k : Int) (s : FState) (fh : Option FhArg) :
     cases fhObjOf fh with
     | error e => simp [shiftPair, shiftOut]
     | ok fo =>
-      simp only [emap_ok, setFh_shift]
-      cases hs : setFh .optional ⟨true, y0, cutoff, fh0, wlen⟩ fo with
+      simp only [emap_ok, setFh_shift mode]
+      cases hs : setFh mode ⟨true, y0, cutoff, fh0, wlen⟩ fo with
       | error e => simp [shiftPair, shiftOut]
       | ok fh' =>
         simp only [emap_ok]
         exact predictStored_shift core k ⟨true, y0, cutoff, fh', wlen⟩
 
-theorem update_shift (core : Core) (k : Int) (s : FState) (y : Series) (up : Bool) :
-    update core .optional (shiftState k s) (Series.shift k y) up =
-      shiftPair k (update core .optional s y up) := by
+theorem update_shift (core : Core) (mode : FhMode) (k : Int) (s : FState) (y : Series) (up : Bool) :
+    update core mode (shiftState k s) (Series.shift k y) up =
+      shiftPair k (update core mode s y up) := by
   obtain ⟨fitted, y0, cutoff, fh0, wlen⟩ := s
   unfold update
   cases fitted with
@@ -386,7 +416,7 @@ theorem update_shift (core : Core) (k : Int) (s : FState) (y : Series) (up : Boo
         | none => simp [shiftPair, shiftOut]
         | some f =>
           simp only [Option.map_some]
-          exact fitWith_shift core k ⟨true, y0, cutoff, some f, wlen⟩ y0 (some f)
+          exact fitWith_shift core mode k ⟨true, y0, cutoff, some f, wlen⟩ y0 (some f)
     | some o =>
       simp only [Option.map_some, shiftState_y, combineFirst_shift]
       cases up with
@@ -397,7 +427,7 @@ theorem update_shift (core : Core) (k : Int) (s : FState) (y : Series) (up : Boo
         | none => simp [shiftPair, shiftOut, shiftState]
         | some f =>
           simp only [Option.map_some]
-          exact fitWith_shift core k ⟨true, Series.combineFirst y y0, some o.1, some f, wlen⟩
+          exact fitWith_shift core mode k ⟨true, Series.combineFirst y y0, some o.1, some f, wlen⟩
             (Series.combineFirst y y0) (some f)
 
 end SkVerif.Lem
@@ -405,12 +435,12 @@ end SkVerif.Lem
 namespace SkVerif.Lem
 open SkVerif SkVerif.Fc
 
-theorem updateThenPredict_shift (core : Core) (k : Int) (s : FState) (y : Series) (f : FH.FH) (up : Bool) :
-    updateThenPredict core .optional (shiftState k s) (Series.shift k y) (shiftFH k f) up =
-      shiftPair k (updateThenPredict core .optional s y f up) := by
+theorem updateThenPredict_shift (core : Core) (mode : FhMode) (k : Int) (s : FState) (y : Series) (f : FH.FH) (up : Bool) :
+    updateThenPredict core mode (shiftState k s) (Series.shift k y) (shiftFH k f) up =
+      shiftPair k (updateThenPredict core mode s y f up) := by
   unfold updateThenPredict
   rw [update_shift]
-  rcases hu : update core .optional s y up with ⟨s2, o⟩
+  rcases hu : update core mode s y up with ⟨s2, o⟩
   have tail : ∀ (o' : Out), (match (shiftState k s2).cutoff with
       | none => (shiftState k s2, Out.err Err.value)
       | some c => (shiftState k s2, outOf (predictAt core (shiftState k s2) c (shiftFH k f)))) =
@@ -430,9 +460,9 @@ theorem updateThenPredict_shift (core : Core) (k : Int) (s : FState) (y : Series
   | series x => exact tail .done
   | frame a b => exact tail .done
 
-theorem ups_shift (core : Core) (k : Int) (s : FState) (y : Series) (fh : Option FhArg) (up : Bool) :
-    updatePredictSingle core .optional (shiftState k s) (Series.shift k y) (fh.map (shiftFhArg k)) up =
-      shiftPair k (updatePredictSingle core .optional s y fh up) := by
+theorem ups_shift (core : Core) (mode : FhMode) (k : Int) (s : FState) (y : Series) (fh : Option FhArg) (up : Bool) :
+    updatePredictSingle core mode (shiftState k s) (Series.shift k y) (fh.map (shiftFhArg k)) up =
+      shiftPair k (updatePredictSingle core mode s y fh up) := by
   obtain ⟨fitted, y0, cutoff, fh0, wlen⟩ := s
   unfold updatePredictSingle
   cases fitted with
@@ -442,8 +472,8 @@ theorem ups_shift (core : Core) (k : Int) (s : FState) (y : Series) (fh : Option
     cases fhObjOf fh with
     | error e => simp [shiftPair, shiftOut]
     | ok fo =>
-      simp only [emap_ok, setFh_shift]
-      cases hs : setFh .optional ⟨true, y0, cutoff, fh0, wlen⟩ fo with
+      simp only [emap_ok, setFh_shift mode]
+      cases hs : setFh mode ⟨true, y0, cutoff, fh0, wlen⟩ fo with
       | error e => simp [shiftPair, shiftOut]
       | ok fh' =>
         simp only [emap_ok]
@@ -451,7 +481,7 @@ theorem ups_shift (core : Core) (k : Int) (s : FState) (y : Series) (fh : Option
         | none => simp [shiftPair, shiftOut, shiftState]
         | some f =>
           simp only [Option.map_some]
-          exact updateThenPredict_shift core k ⟨true, y0, cutoff, some f, wlen⟩ y f up
+          exact updateThenPredict_shift core mode k ⟨true, y0, cutoff, some f, wlen⟩ y f up
 
 end SkVerif.Lem
 
@@ -550,37 +580,37 @@ open SkVerif SkVerif.Fc
 def shiftAcc (k : Int) (pc : List Series × List Int) : List Series × List Int :=
   (shiftPreds k pc.1, pc.2.map (· + k))
 
-theorem movingGo_shift (core : Core) (k : Int) (y : Series) (fh : FH.FH) (up : Bool)
+theorem movingGo_shift (core : Core) (mode : FhMode) (k : Int) (y : Series) (fh : FH.FH) (up : Bool)
     (ws : List (List Int)) (st : FState) (preds : List Series) (cuts : List Int) :
-    movingCutoff.go core .optional (Series.shift k y) (shiftFH k fh) up ws (shiftState k st)
+    movingCutoff.go core mode (Series.shift k y) (shiftFH k fh) up ws (shiftState k st)
         (shiftPreds k preds) (cuts.map (· + k)) =
-      (shiftState k (movingCutoff.go core .optional y fh up ws st preds cuts).1,
-       (movingCutoff.go core .optional y fh up ws st preds cuts).2.map (shiftAcc k)) := by
+      (shiftState k (movingCutoff.go core mode y fh up ws st preds cuts).1,
+       (movingCutoff.go core mode y fh up ws st preds cuts).2.map (shiftAcc k)) := by
   induction ws generalizing st preds cuts with
   | nil => simp [movingCutoff.go, shiftAcc]
   | cons w rest ih =>
     simp only [movingCutoff.go, iloc_shift]
     rw [update_shift]
-    rcases hu : update core .optional st (Series.iloc y w) up with ⟨st1, o⟩
+    rcases hu : update core mode st (Series.iloc y w) up with ⟨st1, o⟩
     have tail : (match (shiftState k st1).cutoff with
         | none => (shiftState k st1, (Except.error Err.value : Except Err (List Series × List Int)))
         | some c =>
           match predictAt core (shiftState k st1) c (shiftFH k fh) with
           | .error e => (shiftState k st1, .error e)
-          | .ok p => movingCutoff.go core .optional (Series.shift k y) (shiftFH k fh) up rest (shiftState k st1)
+          | .ok p => movingCutoff.go core mode (Series.shift k y) (shiftFH k fh) up rest (shiftState k st1)
               (shiftPreds k preds ++ [p]) (cuts.map (· + k) ++ [c])) =
         (shiftState k (match st1.cutoff with
           | none => (st1, (Except.error Err.value : Except Err (List Series × List Int)))
           | some c =>
             match predictAt core st1 c fh with
             | .error e => (st1, .error e)
-            | .ok p => movingCutoff.go core .optional y fh up rest st1 (preds ++ [p]) (cuts ++ [c])).1,
+            | .ok p => movingCutoff.go core mode y fh up rest st1 (preds ++ [p]) (cuts ++ [c])).1,
          (match st1.cutoff with
           | none => (st1, (Except.error Err.value : Except Err (List Series × List Int)))
           | some c =>
             match predictAt core st1 c fh with
             | .error e => (st1, .error e)
-            | .ok p => movingCutoff.go core .optional y fh up rest st1 (preds ++ [p]) (cuts ++ [c])).2.map
+            | .ok p => movingCutoff.go core mode y fh up rest st1 (preds ++ [p]) (cuts ++ [c])).2.map
               (shiftAcc k)) := by
       simp only [shiftState_cutoff]
       cases hc : st1.cutoff with
@@ -602,10 +632,10 @@ theorem movingGo_shift (core : Core) (k : Int) (y : Series) (fh : FH.FH) (up : B
     | series x => exact tail
     | frame a b => exact tail
 
-theorem movingCutoff_shift (core : Core) (k : Int) (s : FState) (y : Series) (trains : List (List Int))
+theorem movingCutoff_shift (core : Core) (mode : FhMode) (k : Int) (s : FState) (y : Series) (trains : List (List Int))
     (fh : FH.FH) (up : Bool) :
-    movingCutoff core .optional (shiftState k s) (Series.shift k y) trains (shiftFH k fh) up =
-      shiftPair k (movingCutoff core .optional s y trains fh up) := by
+    movingCutoff core mode (shiftState k s) (Series.shift k y) trains (shiftFH k fh) up =
+      shiftPair k (movingCutoff core mode s y trains fh up) := by
   unfold movingCutoff
   simp only [shift_head]
   cases hh : y.head? with
@@ -616,10 +646,10 @@ theorem movingCutoff_shift (core : Core) (k : Int) (s : FState) (y : Series) (tr
         shiftState k { s with cutoff := some (o.1 - 1) } := by
       simp only [shiftState, Option.map_some]
       congr 2; omega
-    have hgo := movingGo_shift core k y fh up trains { s with cutoff := some (o.1 - 1) } [] []
+    have hgo := movingGo_shift core mode k y fh up trains { s with cutoff := some (o.1 - 1) } [] []
     simp only [shiftPreds, List.map_nil] at hgo
     rw [hst, hgo]
-    rcases hr : movingCutoff.go core .optional y fh up trains { s with cutoff := some (o.1 - 1) } [] [] with ⟨sEnd, r⟩
+    rcases hr : movingCutoff.go core mode y fh up trains { s with cutoff := some (o.1 - 1) } [] [] with ⟨sEnd, r⟩
     cases r with
     | error e => simp [shiftPair, shiftOut, shiftState]
     | ok pc =>
@@ -652,9 +682,9 @@ theorem cvSpecOf_shift (k : Int) (s : FState) (cv : Option CvSpec) :
         simp only [Option.map_some]
         rw [relSteps_shift]
 
-theorem updatePredictWith_shift (core : Core) (k : Int) (s : FState) (y : Series) (c : CvSpec) (up : Bool) :
-    updatePredictWith core .optional (shiftState k s) (Series.shift k y) c up =
-      shiftPair k (updatePredictWith core .optional s y c up) := by
+theorem updatePredictWith_shift (core : Core) (mode : FhMode) (k : Int) (s : FState) (y : Series) (c : CvSpec) (up : Bool) :
+    updatePredictWith core mode (shiftState k s) (Series.shift k y) c up =
+      shiftPair k (updatePredictWith core mode s y c up) := by
   unfold updatePredictWith
   cases Split.checkFh c.fh with
   | error e => rfl
@@ -668,26 +698,26 @@ theorem updatePredictWith_shift (core : Core) (k : Int) (s : FState) (y : Series
       | error e => rfl
       | ok folds =>
         simp only
-        have := movingCutoff_shift core k s y (folds.map (·.1)) ⟨fhv, true⟩ up
+        have := movingCutoff_shift core mode k s y (folds.map (·.1)) ⟨fhv, true⟩ up
         simpa [shiftFH] using this
 
-theorem updatePredict_shift (core : Core) (k : Int) (s : FState) (y : Series) (cv : Option CvSpec) (up : Bool) :
-    updatePredict core .optional (shiftState k s) (Series.shift k y) cv up =
-      shiftPair k (updatePredict core .optional s y cv up) := by
+theorem updatePredict_shift (core : Core) (mode : FhMode) (k : Int) (s : FState) (y : Series) (cv : Option CvSpec) (up : Bool) :
+    updatePredict core mode (shiftState k s) (Series.shift k y) cv up =
+      shiftPair k (updatePredict core mode s y cv up) := by
   unfold updatePredict
   rw [cvSpecOf_shift]
   cases cvSpecOf s cv with
   | error e => rfl
-  | ok c => exact updatePredictWith_shift core k s y c up
+  | ok c => exact updatePredictWith_shift core mode k s y c up
 
-theorem step_shift (core : Core) (k : Int) (s : FState) (op : Op) :
-    step core .optional (shiftState k s) (shiftOp k op) =
-      (shiftState k (step core .optional s op).1, shiftOut k (step core .optional s op).2) := by
+theorem step_shift (core : Core) (mode : FhMode) (k : Int) (s : FState) (op : Op) :
+    step core mode (shiftState k s) (shiftOp k op) =
+      (shiftState k (step core mode s op).1, shiftOut k (step core mode s op).2) := by
   cases op with
-  | fit y fh => exact fit_shift core k s y fh
-  | predict fh => exact predict_shift core k s fh
-  | update y up => exact update_shift core k s y up
-  | updatePredict y cv up => exact updatePredict_shift core k s y cv up
-  | updatePredictSingle y fh up => exact ups_shift core k s y fh up
+  | fit y fh => exact fit_shift core mode k s y fh
+  | predict fh => exact predict_shift core mode k s fh
+  | update y up => exact update_shift core mode k s y up
+  | updatePredict y cv up => exact updatePredict_shift core mode k s y cv up
+  | updatePredictSingle y fh up => exact ups_shift core mode k s y fh up
 
 end SkVerif.Lem
